@@ -589,7 +589,7 @@ impl Property for C03 {
     type Case = Case;
 
     fn fuzz(&self) -> Option<FuzzSpec> {
-        Some(FuzzSpec { target: "c03", jobs: 8, runs: 150_000, max_len: 98, seeds: 300 })
+        Some(FuzzSpec { target: "c03", jobs: 8, runs: 80_000, max_len: 98, seeds: 300 })
     }
 
     /// two bytes of read partition, then the input for the production decoders (every single
